@@ -175,6 +175,15 @@ theorem C05_refresh_fits (o : Order) (n : Nat) (hn : n < W) (hh : o.hid < W) :
   obtain ⟨id, price, vis, side, ts, tif, kind⟩ := o
   cases kind <;> simp [Order.refresh, Order.hid, Kind.hidden] at hh ⊢ <;> omega
 
+/-- tranches compose: two refreshes in a row take out of the hidden quantity what one refresh by the sum takes,
+    never more than was hidden, and leave the same hidden quantity behind -/
+theorem C05_refresh_twice (o : Order) (a b : Nat) :
+    (o.refresh a).2 + ((o.refresh a).1.refresh b).2 = (o.refresh (a + b)).2 ∧
+      ((o.refresh a).1.refresh b).1.hid = (o.refresh (a + b)).1.hid ∧
+      (o.refresh a).2 + ((o.refresh a).1.refresh b).2 ≤ o.hid := by
+  obtain ⟨id, price, vis, side, ts, tif, kind⟩ := o
+  cases kind <;> simp [Order.refresh, Order.hid, Kind.hidden] <;> omega
+
 example : (⟨⟨false, 1⟩, 100, 0, .sell, 1, .gtc, .iceberg 20⟩ : Order).refresh 7 =
     (⟨⟨false, 1⟩, 100, 7, .sell, 1, .gtc, .iceberg 13⟩, 7) := by decide
 example : (⟨⟨false, 1⟩, 100, 4, .sell, 1, .gtc, .reserve 5 3 none true⟩ : Order).refresh 80 =
